@@ -211,8 +211,9 @@ theorem C20_asFound_unflushed_stdout_swallows_error :
 example : outcomeIO false {} .file .stdout (.ok "a {\n  b: c;\n}\n" "") true =
     { exitZero := false, stdout := "", stderr := [.text "", .osError], file := none } := by
   simp [outcomeIO, unterminatedSmall]
-example : agrees (outcomeIO true {} .file .file (.ok "a{b:c}" "W\n") true)
-    ⟨1, "", "W\nError: Os { code: 28 }", none⟩ = true := by decide
+#guard agrees (outcomeIO true {} .file .file (.ok "a{b:c}" "W\n") true) ⟨1, "", "W\nError: Os { code: 28 }", none⟩
+#guard !agrees (outcomeIO true {} .file .stdout (.ok "a{b:c}" "") true) ⟨0, "", "", none⟩
+#guard agrees (outcomeIO false {} .file .stdout (.ok "a{b:c}" "") true) ⟨0, "", "", none⟩
 
 /-- P̂ accepts exactly the model's own outcome (sanity of the oracle the driver evaluates). -/
 theorem C20_agrees_outcome (f : Flags) (i : InputKind) (o : OutputKind) (lib : LibResult) (h : o ≠ .fileUnopenable) :
